@@ -62,7 +62,7 @@ func c13Gen(t *rapid.T) any {
 	} else {
 		c.Tail = rapid.SliceOfN(rapid.Byte(), 0, 80).Draw(t, "tail")
 	}
-	c.Mode = rapid.SampledFrom([]string{"exact", "exact", "flip", "flip", "prefix", "extend", "random", "empty", "nil", "otherhash", "missing", "replaced"}).Draw(t, "mode")
+	c.Mode = rapid.SampledFrom([]string{"exact", "exact", "flip", "flip", "prefix", "extend", "random", "empty", "nil", "otherhash", "missing", "replaced", "barename"}).Draw(t, "mode")
 	size := 32
 	if h := c13Hash(c.Hash); h != nil {
 		size = h.Size()
@@ -106,7 +106,7 @@ func c13Run(ci any) (out Outcome) {
 
 	var checksum []byte
 	switch c.Mode {
-	case "exact", "missing", "replaced":
+	case "exact", "missing", "replaced", "barename":
 		checksum = append([]byte{}, digest...)
 	case "flip":
 		checksum = append([]byte{}, digest...)
@@ -162,6 +162,10 @@ func c13Run(ci any) (out Outcome) {
 		out.label("expect:%s", wantErr.Error())
 	}
 
+	if c.Mode == "barename" && c.Hash != "nil" {
+		c13BareName(c, dir, n, content, checksum, &out)
+		return
+	}
 	if c.Swap == "" {
 		c13Start(c, exe, marker, onDisk, c.Mode == "missing", checksum, digest, wantErr, &out)
 		return
@@ -194,6 +198,59 @@ func c13Run(ci any) (out Outcome) {
 		out.Violation = "second verification of the same path (" + c.Swap + fmt.Sprintf(", mtime kept=%v): ", c.KeepMtime) + out.Violation
 	}
 	return
+}
+
+// c13BareName: the command path is a bare file name (exec.Cmd literal). The verified file is the one
+// that path names - relative to the host's working directory - and that is the file that must run,
+// not a file of the same name found through PATH. Cases of one process run one after the other, so
+// the working directory and PATH of the process can be borrowed for the case.
+func c13BareName(c *c13Case, dir string, n int64, content, checksum []byte, out *Outcome) {
+	work := filepath.Join(dir, fmt.Sprintf("c13-%d-cwd", n))
+	bin := filepath.Join(dir, fmt.Sprintf("c13-%d-bin", n))
+	os.MkdirAll(work, 0o755)
+	os.MkdirAll(bin, 0o755)
+	defer os.RemoveAll(work)
+	defer os.RemoveAll(bin)
+	name := fmt.Sprintf("c13plugin%d", n)
+	evilMarker := filepath.Join(bin, "ran")
+	marker := filepath.Join(dir, fmt.Sprintf("c13-%d.marker", n))
+	os.WriteFile(filepath.Join(work, name), content, 0o755)
+	os.WriteFile(filepath.Join(bin, name), []byte("#!/bin/sh\necho launched >> "+evilMarker+"\nexit 0\n"), 0o755)
+	oldwd, err := os.Getwd()
+	if err != nil {
+		panic(err)
+	}
+	oldPath := os.Getenv("PATH")
+	if err := os.Chdir(work); err != nil {
+		panic(err)
+	}
+	os.Setenv("PATH", bin+string(os.PathListSeparator)+oldPath)
+	defer os.Chdir(oldwd)
+	defer os.Setenv("PATH", oldPath)
+	cmd := &exec.Cmd{Path: name, Args: []string{name}}
+	cl := plugin.NewClient(&plugin.ClientConfig{
+		HandshakeConfig: plugin.HandshakeConfig{ProtocolVersion: 1, MagicCookieKey: "K", MagicCookieValue: "V"},
+		Plugins:         plugin.PluginSet{},
+		Cmd:             cmd,
+		SecureConfig:    &plugin.SecureConfig{Checksum: checksum, Hash: c13Hash(c.Hash)},
+		StartTimeout:    5 * time.Second,
+		Logger:          nullLogger(),
+	})
+	var serr error
+	if el, ok := within(20*time.Second, func() { _, serr = cl.Start() }); !ok {
+		out.Slow = fmt.Sprintf("Start did not return within %v", el)
+		return
+	}
+	killBounded(cl, 10*time.Second)
+	out.NonTrivial = true
+	time.Sleep(20 * time.Millisecond)
+	if _, err := os.Stat(evilMarker); err == nil {
+		out.violate("the checksum of ./%s was verified, but the file that ran is %s found through PATH (never verified); Start: %v", name, filepath.Join(bin, name), serr)
+		return
+	}
+	if _, err := os.Stat(marker); err != nil && cmd.Process == nil {
+		out.violate("checksum equals the digest of ./%s but nothing was executed: %v", name, serr)
+	}
 }
 
 // c13Start writes onDisk to exe (unless missing), starts a client with the SecureConfig and judges
@@ -280,7 +337,7 @@ var propC13 = register(&Prop{
 	New: func() any { return &c13Case{} },
 	Run: c13Run,
 	Rule: "rapid draws (script tail bytes 0..70000, hash in md5/sha1/sha256/sha512/nil, checksum mode in exact/one-bit-flip at drawn position/" +
-		"proper prefix of drawn length/extended by 1..8 bytes/random same length/empty/nil/digest of another hash; missing file; file replaced after the digest was taken; two verifications of one path with a same-length rewrite in between, old mtime restored or not, good-then-tampered and tampered-then-good); oracle: differential against the " +
+		"proper prefix of drawn length/extended by 1..8 bytes/random same length/empty/nil/digest of another hash; missing file; file replaced after the digest was taken; bare-name command path with a same-named other executable first in PATH; two verifications of one path with a same-length rewrite in between, old mtime restored or not, good-then-tampered and tampered-then-good); oracle: differential against the " +
 		"harness's own digest: executed (exec.Cmd.Process set or launch marker written) <=> checksum == digest, else the matching sentinel error. " +
 		"Non-trivial: checksum equals the digest, or differs but shares a >=1 byte prefix with it. Distinct by full case.",
 	Assumptions: []string{"a fresh hash.Hash per SecureConfig (documented use)", "launch is observed through exec.Cmd.Process and a marker file written by the target script"},
